@@ -26,7 +26,7 @@ MANIFEST = {
 
 
 def facts(snap, F):
-    c01.all_facts(snap, F)
+    c01.all_facts(snap, F, skip=("windowCalls", "nativePidArgs"))     # C01-only obligations
 
 
 def correspond(ctx, res):
